@@ -73,9 +73,21 @@ def dtest(ctx, shard, nshards):
                 a += 1
             while not R.is_bday(b):
                 b += 1
-        kind = rnd.choice(("d", "d", "dt", "t", "ns"))
+        kind = rnd.choice(("d", "d", "dt", "t", "ns", "sx"))
         pre = []
-        if kind == "ns":
+        if kind == "sx":
+            # epoch seconds, as @N arguments or through -i %s
+            ea = (a - R.UNIX0) * 86400 + rnd.randrange(86400)
+            eb = ea + rnd.choice((-1, 0, 0, 1, 60, -3600, 86400)) if rnd.random() < 0.6 else (b - R.UNIX0) * 86400 + rnd.randrange(86400)
+            if rnd.random() < 0.5:
+                ta, tb, pre = "@%d" % ea, "@%d" % eb, []
+            else:
+                ea, eb = abs(ea), abs(eb)
+                ta, tb, pre = "%d" % ea, "%d" % eb, ["-i", "%s"]
+            ka, kb, tagrep, rep = ea, eb, "time.epoch", "ymd"
+        if kind == "sx":
+            pass
+        elif kind == "ns":
             # values that differ in the fraction of the second only (or not at all), read with %N
             NS = (0, 1, 100000000, 499999999, 500000000, 999999999, rnd.randrange(10 ** 9))
             na, nb = rnd.choice(NS), rnd.choice(NS)
